@@ -68,12 +68,13 @@ func (n *InfluxQLNode) NewGroup(group edge.GroupInfo, first edge.PointMeta) (edg
 
 func (n *InfluxQLNode) newGroup(first edge.PointMeta) edge.ForwardReceiver {
 	bc := baseReduceContext{
-		as:         n.n.As,
-		field:      n.n.Field,
-		name:       first.Name(),
-		groupInfo:  first.GroupInfo(),
-		time:       first.Time(),
-		pointTimes: n.n.PointTimes || n.isStreamTransformation,
+		as:        n.n.As,
+		field:     n.n.Field,
+		name:      first.Name(),
+		groupInfo: first.GroupInfo(),
+		time:      first.Time(),
+		// Only selectors have a point whose time can be used, aggregations always use the batch time.
+		pointTimes: (n.n.PointTimes && (n.n.ReduceCreater.IsSimpleSelector || n.Provides() == pipeline.BatchEdge)) || n.isStreamTransformation,
 	}
 	g := influxqlGroup{
 		n:  n,
